@@ -152,8 +152,7 @@ func c04Framing(p *load.Program, r *oblig.Report) {
 					if ci == nil || !an.IsNilConst(ci.Y) {
 						continue
 					}
-					isTrue := pred.Succs[0] == c.Block()
-					if (ci.Op == token.EQL) == isTrue && strings.Contains(argDesc(ci.X), ".err") {
+					if e := ci.Edge(token.EQL); e >= 0 && pred.Succs[e] == c.Block() && strings.Contains(argDesc(ci.X), ".err") {
 						guard = true
 					}
 				}
@@ -161,7 +160,7 @@ func c04Framing(p *load.Program, r *oblig.Report) {
 				if !guard {
 					for b := c.Block().Idom(); b != nil; b = b.Idom() {
 						_, ci := an.IfCond(b)
-						if ci != nil && an.IsNilConst(ci.Y) && ci.Op == token.EQL && b.Succs[0].Dominates(c.Block()) && strings.Contains(argDesc(ci.X), ".err") {
+						if e := ci.Edge(token.EQL); e >= 0 && an.IsNilConst(ci.Y) && b.Succs[e].Dominates(c.Block()) && strings.Contains(argDesc(ci.X), ".err") {
 							guard = true
 						}
 					}
@@ -408,7 +407,7 @@ func encEffect(fn *ssa.Function) string {
 		kind = "empty"
 	}
 	t, f := fn.Blocks[0].Succs[0], fn.Blocks[0].Succs[1]
-	if ci.Op == token.NEQ {
+	if e := ci.Edge(token.EQL); e == 1 {
 		t, f = f, t
 	}
 	return kind + "? " + pathDesc(t) + " : " + pathDesc(f)
